@@ -138,6 +138,13 @@ class C14(Harness):
 
     # ------------------------------------------------------------------
     def inputs(self, ctx, cell):
+        inp = self._inputs(ctx, cell)
+        if cell["kind"] in ("padding", "truncation", "paa", "tabularizer", "concatenator", "sliding", "interval-int", "row") and len(inp.get("x", [])) >= 2:
+            # a shuffled panel: the instances' integer row labels are a permutation of 0..n-1 (reversed); rows stay in input order
+            inp["shuffled_rows"] = bool(ctx.fresh_bool("shuffled_rows"))
+        return inp
+
+    def _inputs(self, ctx, cell):
         q = self._tier == "quick"
         k = cell["kind"]
 
@@ -258,6 +265,8 @@ class C14(Harness):
             cell = dict(cell, kind="padding")
         else:
             X, sym = self._nested(inp["x"])
+        if inp.get("shuffled_rows"):
+            X.index = list(reversed(range(X.shape[0])))
         worlds.TOKEN_MODE[0] = sym
         try:
             return self._panel(W, X, inp, cell, sym)
@@ -540,7 +549,8 @@ class C14(Harness):
             return
         if k == "tabularizer":
             tab = out["table"]
-            P.check("rows-in-input-order", len(tab) == ni and out["index"] == list(range(ni)))
+            want_index = list(reversed(range(ni))) if inp.get("shuffled_rows") else list(range(ni))  # (the instances' own labels are carried)
+            P.check("rows-in-input-order", len(tab) == ni and out["index"] == want_index)
             for i in range(min(ni, len(tab))):
                 P.check("requested-length", len(tab[i]) == nc * Ln)
                 for j in range(nc):
